@@ -50,7 +50,13 @@ def convergenceFail (tz : Int) (files : List FileJ) (pems : List PemJ) (ranks : 
             match Db.generateArtifacts s' e.alias_ oracle, actual with
             | .ok g, some c =>
               let tbsModel := (Gen.tbsTlv g.tbs).toOption.map Tlv.enc
-              if tbsModel != some c.tbs.raw.enc then
+              let issuerSubjectEnc : Option Bytes :=
+                if eff.issuer.isEmpty then some c.tbs.subject.enc
+                else (((s.find eff.issuer).bind fun i => pems.find? (·.path = artifactFileName i.configPath)).bind (·.cert)).bind fun ic =>
+                  (((hexToBytes ic.der).bind X509.decodeDer).bind X509.decCertificate).map (·.tbs.subject.enc)
+              if issuerSubjectEnc != some c.tbs.issuer.enc then
+                fail := some "C01: after the history the issuer DN of a certificate gopki produced is not its issuer's current subject DN"
+              else if tbsModel != some c.tbs.raw.enc then
                 -- the known blind spot of the hash (C13): run-relative validity is not hashed
                 let tbsSameButUntil := (Gen.tbsTlv { g.tbs with notAfter := c.tbs.notAfter }).toOption.map Tlv.enc
                 if tbsSameButUntil == some c.tbs.raw.enc && !(eff.validity.isStatic && eff.validity.isSet) then
@@ -88,13 +94,12 @@ def opHist : OpFn := fun view inp out => do
   let mut prePems : List PemJ ← initial.getObjValAs? (List PemJ) "pems"
   let mut preRanks := ranksOf initial "ranks"
   let mut corr := true
-  let mut specFail : Option String := none
+  -- every failing clause is kept (with its features); the property view picks the first one of its families
+  let mut fails : List (String × Json × Json) := []
   let mut corrClause := ""
-  let mut feat : Json := Json.mkObj []
-  let mut detail : Json := Json.null
+  let mut corrDetail : Json := Json.null
   let mut runs : Nat := 0
   let mut faulted : Nat := 0
-  let mut lastOk := false
   let mut prevRun : Option Nat := none      -- flags of the directly preceding successful run
   let n := stepsIn.length
   let mut i : Nat := 0
@@ -110,36 +115,35 @@ def opHist : OpFn := fun view inp out => do
       let o : RunObs ← fromJson? so
       let v := replayRun tz files strat fault prePems postPems preRanks keys o
       if !v.corr && corr then
-        corr := false; corrClause := s!"step {i}: {v.clause}"; detail := v.detail
-      if !v.spec && specFail.isNone then
-        specFail := some s!"{v.clause}"; feat := v.feat; detail := v.detail
+        corr := false; corrClause := s!"step {i}: {v.clause}"; corrDetail := v.detail
+      if !v.spec then fails := fails ++ [(v.clause, v.feat, v.detail)]
       -- C10: a run directly after a successful run with the same flags (other than generate-all) is a no-op
-      if specFail.isNone && prevRun == some strat && strat < 16 && fault.isNone && (!v.planned.isEmpty || !o.writes.isEmpty) then
-        specFail := some "C10: re-running sign right after a successful run is not a no-op"
-        detail := Json.mkObj [("planned", toJson v.planned), ("step", i)]
+      if prevRun == some strat && strat < 16 && fault.isNone && (!v.planned.isEmpty || !o.writes.isEmpty) then
+        fails := fails ++ [("C10: re-running sign right after a successful run is not a no-op", Json.mkObj [], Json.mkObj [("planned", toJson v.planned), ("step", i)])]
+      if prevRun == some strat && strat < 16 && fault.isNone && v.planned.isEmpty &&
+         !(prePems.zip postPems).all (fun (a, b) => a.path == b.path && (a.cert.map (·.der)) == (b.cert.map (·.der)) && a.hash == b.hash && (a.key.map (·.pkcs8)) == (b.key.map (·.pkcs8))) then
+        fails := fails ++ [("C10: a file changed during a run that generated nothing", Json.mkObj [], Json.null)]
       prevRun := if v.ok && o.openErr == "" && o.planErr == "" then some strat else none
-      -- the last two steps are default runs: convergence after the first, no-op for the second
-      if i + 2 == n && specFail.isNone then
+      -- the last two steps are default runs: convergence is evaluated after the first of them
+      if i + 2 == n then
         if !v.ok then
           -- a configuration error (the model expects the same failure) is not a convergence failure
-          if !v.corr then specFail := some ("C12: the default run after the history did not succeed: " ++ v.clause)
+          if !v.corr then fails := fails ++ [("C12: the default run after the history did not succeed: " ++ v.clause, Json.mkObj [], v.detail)]
         else
-          specFail := convergenceFail tz files postPems (ranksOf so "ranks") keys
-          if (specFail.getD "").startsWith "C12: a certificate gopki produced keeps an outdated notAfter" then
-            feat := Json.mkObj [("validityNotStatic", true)]
-          lastOk := true
-      if i + 1 == n && specFail.isNone && lastOk then
-        if !v.planned.isEmpty || !o.writes.isEmpty then
-          specFail := some "C10: re-running sign right after a successful run is not a no-op"
-          detail := Json.mkObj [("planned", toJson v.planned)]
-        else if !(prePems.zip postPems).all (fun (a, b) => a.path == b.path && (a.cert.map (·.der)) == (b.cert.map (·.der)) && a.hash == b.hash && (a.key.map (·.pkcs8)) == (b.key.map (·.pkcs8))) then
-          specFail := some "C10: a file changed during a run that generated nothing"
-    if op != "run" then prevRun := none
+          match convergenceFail tz files postPems (ranksOf so "ranks") keys with
+          | some c =>
+            let ft := if c.startsWith "C12: a certificate gopki produced keeps an outdated notAfter" then Json.mkObj [("validityNotStatic", true)] else Json.mkObj []
+            fails := fails ++ [(c, ft, Json.null)]
+          | none => pure ()
+    else prevRun := none
     prePems := postPems
     preRanks := ranksOf so "ranks"
     i := i + 1
-  let specSeen := match specFail with | some c => if viewAccepts view c then some c else none | none => none
-  pure { corr := corr, spec := specSeen.isNone, clause := specFail.getD corrClause, nontrivial := runs ≥ 3,
-         branch := s!"runs{runs}" ++ (if faulted > 0 then "+fault" else ""), model := detail, feat := feat }
+  let seen := fails.find? fun (c, _, _) => viewAccepts view c
+  pure { corr := corr, spec := seen.isNone,
+         clause := match seen with | some (c, _, _) => c | none => (if corrClause != "" then corrClause else (fails.head?.map (·.1)).getD ""),
+         nontrivial := runs ≥ 3, branch := s!"runs{runs}" ++ (if faulted > 0 then "+fault" else ""),
+         model := match seen with | some (_, _, d) => d | none => corrDetail,
+         feat := match seen with | some (_, f, _) => f | none => Json.mkObj [] }
 
 end Driver
